@@ -511,6 +511,13 @@ theorem allpub_populate (hi : InjOK inj) (hp : InjFP inj) (hdp : c.qp.drainPubli
   generalize (if sb.cfg.refreshAfterSample = true then refreshCache (inj sb 1) else inj sb 1) = s2 at h2 ha2 ⊢
   exact allpub_fold hi hp hdp (tsNowOf sb) htn s2.cache (s2, 0) _ (fun i hi' => hi') h2 ha2
 
+theorem fp_flushGate (hp : InjFP inj) (s : BSt) (n : Nat) : FP s (Backend.flushGate inj s n) := by
+  rcases flushGate_cases inj s n with ⟨_, e⟩ | ⟨_, e⟩ | ⟨_, e⟩ <;> rw [e]
+  · exact (slol_flushSinks _).qf.fp
+  · exact hp s 7
+  · have h1 : FP (inj s 7) { inj s 7 with lastFlush := (inj s 7).now } := FP.ofThs rfl
+    exact ((hp s 7).trans h1).trans (slol_flushSinks _).qf.fp
+
 theorem allpub_poll (hi : InjOK inj) (hp : InjFP inj) (hdp : c.qp.drainPublish = true) (h : PIo c fl s)
     (ha : AllPub s) : AllPub (Backend.poll inj s) := by
   have h1 := allpub_populate hi hp hdp h ha
@@ -522,10 +529,10 @@ theorem allpub_poll (hi : InjOK inj) (hp : InjFP inj) (hdp : c.qp.drainPublish =
   · split
     · exact (fp_processLowest hp s1).all h1
     · exact (fp_batchLoop hp _ s1).all h1
-  · have a1 : FP s1 (Backend.allEmpty (Backend.checkFailures inj (flushSinks (inj s1 5)))).1 :=
-      (((hp s1 5).trans (slol_flushSinks _).qf.fp).trans (fp_checkFailures hp _)).trans (qf_allEmpty _).fp
+  · have a1 : FP s1 (Backend.allEmpty (Backend.checkFailures inj (Backend.flushGate inj (inj s1 5) (inj s1 5).cfg.flushInterval))).1 :=
+      (((hp s1 5).trans (fp_flushGate hp _ _)).trans (fp_checkFailures hp _)).trans (qf_allEmpty _).fp
     split
-    · exact ((a1.trans (qf_cleanupContexts _).fp).trans (fp_cleanupLoggers hp _)).all h1
+    · exact (((a1.trans (qf_cleanupContexts _).fp).trans (qf_preEraseFlush _).fp).trans (fp_cleanupLoggers hp _)).all h1
     · exact a1.all h1
 
 theorem allpub_exitLoop (hi : InjOK inj) (hp : InjFP inj) (hdp : c.qp.drainPublish = true) (tick fuel : Nat) :
@@ -539,8 +546,8 @@ theorem allpub_exitLoop (hi : InjOK inj) (hp : InjFP inj) (hdp : c.qp.drainPubli
     have h1 := h.allEmpty
     have a1 : AllPub (Backend.allEmpty s).1 := (qf_allEmpty s).fp.all ha
     split
-    · exact ((((fp_checkFailures hp _).trans (slol_flushSinks _).qf.fp).trans (qf_cleanupContexts _).fp).trans
-        (fp_cleanupLoggers hp _)).all a1
+    · exact (((((fp_checkFailures hp _).trans (slol_flushSinks _).qf.fp).trans (qf_cleanupContexts _).fp).trans
+        (qf_preEraseFlush _).fp).trans (fp_cleanupLoggers hp _)).all a1
     · have h2 := h1.tick tick
       have a2 : AllPub { (Backend.allEmpty s).1 with now := (Backend.allEmpty s).1.now + tick } :=
         (FP.ofThs (s := (Backend.allEmpty s).1) rfl).all a1
